@@ -22,7 +22,9 @@ EXPLANATION = (
     "adjoint step must equal the transpose of that map applied to the incoming cotangents, the nonlinear part entering "
     "only through one vjp of (f, g) at the carried z with respect to [z] + params, with grad_outputs the accumulated "
     "(adj_f, adj_g); the formal adjoint of prod is element-wise for diagonal noise and an outer product otherwise. "
-    "R10.3: extras are saved for backward iff (method, adjoint_method) is the reversible pair, for all 81 pairs. "
+    "R10.3: extras are saved for backward iff (method, adjoint_method) is the reversible pair, for all 81 pairs. R10.4: "
+    "forward returns (ys, *extras) as ordinary differentiable outputs (no other call on the autograd context), and the "
+    "backward pass seeds the extra cotangents from the incoming grad_extra_solver_state. "
     "Not decided: the 1e-9 figure (floating point)."
 )
 
@@ -214,6 +216,21 @@ def r10_2(ctx):
     ctx.floor("R10.2", 14)
 
 
+def make_ctx(saved, other_calls):
+    """Abstract autograd context: attribute stores are free; save_for_backward is recorded; any other method call is
+    recorded in `other_calls` (it changes how autograd treats the Function's outputs)."""
+    def hook(it, obj, name, node, fi):
+        if name.startswith("__"):
+            return NotImplemented
+
+        def call(it2, a, k, n2, f2):
+            other_calls.append((name, list(a), n2, f2))
+            return None
+        return Intrinsic(f"ctx.{name}", call)
+    return Obj("ctx", attrs={"save_for_backward": Intrinsic("save", lambda it, a, k, n, f: saved.append(list(a)))},
+               getattr_hook=hook)
+
+
 def r10_3(ctx):
     rep, model = ctx.rep, ctx.model
     rep.rule("R10.3", "extras are saved for backward iff (method, adjoint_method) = (reversible_heun, "
@@ -224,8 +241,8 @@ def r10_3(ctx):
     n = 0
     for m in dom.methods.values():
         for am in dom.methods.values():
-            saved = []
-            ctx_obj = Obj("ctx", attrs={"save_for_backward": Intrinsic("save", lambda it, a, k, n2, f: saved.append(list(a)))})
+            saved, other = [], []
+            ctx_obj = make_ctx(saved, other)
             YS, E = nf.sym("YS"), (nf.sym("E1"), nf.sym("E2"))
             solver = Obj("solver", attrs={"integrate": Intrinsic("integrate", lambda it, a, k, n2, f: (YS, E))})
             it = Interp(model, solverkit.StepHooks())
@@ -234,8 +251,17 @@ def r10_3(ctx):
             args = [ctx_obj, Obj("sde"), nf.sym("ts"), nf.sym("dt", True), Obj("bm"), solver, m, am, False,
                     nf.sym("rtol", True), nf.sym("atol", True), nf.sym("dt_min", True), {}, Fraction(len(ex_in)),
                     nf.sym("y0")] + list(ex_in) + list(P)
-            it.call_function(fwd, args, {})
+            ret = it.call_function(fwd, args, {})
             n += 1
+            if m == dom.methods.get("reversible_heun") and am == dom.methods.get("adjoint_reversible_heun"):
+                ok_ret = isinstance(ret, tuple) and len(ret) == 3 and nf.equal(ret[0], YS) and nf.equal(ret[1], E[0]) \
+                    and nf.equal(ret[2], E[1])
+                rep.check(ok_ret and not other, "R10.4", astq.loc(fwd), f"{fwd.key}::R10.4::outputs-differentiable",
+                          f"forward returns `{ret}` and calls {[(c[0], [str(x) for x in c[1]]) for c in other]} on the "
+                          f"autograd context: the extra solver state (f, g, z) must be returned as ordinary differentiable "
+                          f"outputs (their cotangents are the initial adj_f, adj_g, adj_z of the reverse solve); marking them "
+                          f"non-differentiable silently zeroes those cotangents when solves are chained or the loss reads "
+                          f"the extras", "returns (ys, *extras) as differentiable outputs")
             want_flag = (m == dom.methods.get("reversible_heun") and am == dom.methods.get("adjoint_reversible_heun"))
             flag = ctx_obj.attrs.get("saved_extras_for_backward")
             layout_ok = len(saved) == 1 and nf.equal(saved[0][0], YS) and nf.equal(saved[0][1], nf.sym("ts")) and \
@@ -245,6 +271,7 @@ def r10_3(ctx):
                       f"{[[str(x) for x in s] for s in saved]}; extras must be saved exactly for the reversible pair, in the "
                       f"layout (ys, ts, *extras, *params)", "saved iff reversible pair; layout (ys, ts, *extras, *params)")
     ctx.floor("R10.3", 64)
+    ctx.floor("R10.4", 1)
 
 
 def run(ctx):
